@@ -44,6 +44,11 @@ func (ups *Socket) Connect(manager cert.TlsConfig, mustSecure bool) error {
 			return errors.Wrapf(err, "Could not configure TLS")
 		}
 		a.Scheme = addr.PlusEnd.ReplaceAllString(a.Scheme, "")
+		if _, isTcp := n.(*net.TCPAddr); isTcp && tlsConfig.ServerName == "" {
+			// The address has been resolved already: without this the certificate would be
+			// checked against the IP address instead of the host name the user gave
+			tlsConfig.ServerName = ups.Address.Hostname()
+		}
 		log.Debugf("Dialing TLS %s", a.String())
 
 		c, err = tls.Dial(n.Network(), n.String(), tlsConfig)
